@@ -18,3 +18,8 @@ open Chess.Props.C11
 #print axioms referee_checkmate_truthful
 #print axioms referee_didnt_move_truthful
 #print axioms referee_loop_moves
+#print axioms cli_win_truthful
+#print axioms cli_stalemate_truthful
+#print axioms cli_no_move_truthful
+#print axioms cli_game_reachable
+#print axioms referee_draw_truthful
